@@ -164,10 +164,12 @@ def parse_short(d, group):
 
 
 # ---------------------------------------------------------------------------- 2. hex text forms
-@meta(bounds="0x(hh){n} | X'(hh){n}' | net:0x(hh){n} | net:X'(hh){n}' | hh:hh:hh:hh:hh:hh ; n concrete 1..7, every "
-             "hex glyph symbolic over 0-9A-Fa-f (mixed case), network = nd symbolic decimal digits",
+@meta(bounds="0x(hh){n} | X'(hh){n}' | net:0x(hh){n} | net:X'(hh){n}' | hh:hh:hh:hh:hh:hh ; n 1..7 (quick: 1, 2, 4, 7; "
+             "with network 1, 7), every hex glyph symbolic over 0-9A-Fa-f (mixed case), network = nd symbolic decimal "
+             "digits, leading zeros included (nd 1..6; quick: 1, 5)",
       outside="octet strings longer than 7", stubs=STUBS[1:], assumes=ASSUMES[:1])
-def parse_hex(d, form, n, nd):
+def parse_hex(d, cases):
+    form, n, nd = d.pick(cases, 'case')
     net = None
     if nd:
         net, nt = dec(d, nd, 'n')
@@ -271,7 +273,8 @@ def ctor_numbers(d, hi_v, hi_net):
 @meta(bounds="raw octets of length n (1..7, every octet symbolic) as bytes and bytearray given to Address, "
              "LocalStation, RemoteStation(net symbolic 0..hi_net); for n = 6 also the address/port tuple of the octets",
       outside="octet strings longer than 7, the empty octet string", stubs=STUBS[:1], assumes=ASSUMES[:1])
-def ctor_octets(d, n, hi_net):
+def ctor_octets(d, ns, hi_net):
+    n = d.pick(ns, 'n')
     which = d.pick(["Address", "Address-bytearray", "LocalStation", "LocalStation-bytearray", "RemoteStation",
                     "RemoteStation-bytearray"], 'ctor')
     y = d.bytes(n, name='octets')
@@ -299,7 +302,8 @@ def ctor_octets(d, n, hi_net):
 @meta(bounds="(ip, port) tuples: ip as canonical dotted text (digit counts per instance, digits symbolic) or as "
              "a symbolic 32-bit number; port symbolic 0..65535; pack_ip_addr / unpack_ip_addr on the same numbers",
       outside="the ('', port) any-address form; ports > 65535; numbers >= 2**32", stubs=STUBS[:1], assumes=ASSUMES)
-def ctor_tuple(d, shape):
+def ctor_tuple(d, shapes):
+    shape = d.pick(shapes, 'shape')          # None = the ip is given as a number
     port = d.int(0, 65535, 'port')
     if shape is None:
         ip = d.int(0, 2 ** 32 - 1, 'ip')
@@ -351,16 +355,39 @@ def same_address(a, b):
     return a.addrAddr is None or bytes(a.addrAddr) == bytes(b.addrAddr)
 
 
+QUADS_T = [(a, b, c, e) for a in (0, 10, 100, 255) for b in (0, 10, 100, 255) for c in (0, 10, 100, 255)
+           for e in (0, 10, 100, 255)]
+RT_GROUPS = {
+    "simple": [("text", 0), ("lbcast", 0), ("gbcast", 0), ("rbcast", 0), ("local", 1), ("local", 2), ("local", 3),
+               ("local", 4), ("local", 5), ("local", 6), ("local", 7)],
+    "local-ip": [("local-ip", 6)],
+    "remote": [("remote", 1), ("remote", 2), ("remote", 3), ("remote", 4), ("remote", 5), ("remote", 6),
+               ("remote", 7)],
+    "remote-q": [("remote", 1), ("remote", 2), ("remote", 6), ("remote", 7)],
+    "remote-ip": [("remote-ip", 6)],
+    "rbcast": [("rbcast", 0)],
+}
+
+
+def draw_net(d, nets):
+    if nets and nets[0] == "range":
+        return d.int(nets[1], nets[2], 'net')      # printing it enumerates the range
+    return d.pick(nets, 'net')
+
+
 @meta(bounds="every address value (type, network, station octets), built by the typed constructors: one-octet "
-             "stations 0..255 (all, enumerated by str()), octet strings of length 2..7 with every octet symbolic "
-             "(printed in hex); six-octet stations whose last two octets are a port 47808..47823 (printed dotted): "
-             "port symbolic, the four IP octets picked from 8 boundary quads; networks picked from 14 boundary "
-             "values (decimal printing of a symbolic integer makes the engine enumerate, hence picks); plus the "
-             "literal notations of tests/test_pdu/test_address.py and mask/port variants",
-      outside="networks / IP quads other than the picked boundary values on the dotted and net: printing paths; "
-              "the Null address (no notation denotes it); routes",
+             "stations 0..255 (symbolic), octet strings of length 2..7 with every octet symbolic (printed in hex; "
+             "for length 6 the last two octets outside 47808..47823), six-octet stations whose last two octets are a "
+             "port 47808..47823 (printed dotted): port symbolic, the four IP octets picked from 8 boundary quads "
+             "(thorough, local: 256 quads over {0,10,100,255}); networks picked from 14 boundary values (quick: 4) and, "
+             "thorough, every network of 0..300 and 65300..65534 ('%d' formatting of a symbolic integer makes the "
+             "engine enumerate, hence picks / small ranges); plus 29 literal notations (those of "
+             "tests/test_pdu/test_address.py and mask / port / leading-zero variants)",
+      outside="other networks / IP quads on the dotted and net: printing paths; the Null address (no notation "
+              "denotes it); routes",
       stubs=STUBS, assumes=ASSUMES)
-def roundtrip(d, kind, n):
+def roundtrip(d, group, nets, quads):
+    kind, n = d.pick(RT_GROUPS[group], 'case')
     if kind == "text":
         a = Address(d.pick(TEXTS, 'text'))
     elif kind == "lbcast":
@@ -368,11 +395,11 @@ def roundtrip(d, kind, n):
     elif kind == "gbcast":
         a = GlobalBroadcast()
     elif kind == "rbcast":
-        a = RemoteBroadcast(d.pick(NETS, 'net'))
+        a = RemoteBroadcast(draw_net(d, nets))
     else:
         if kind.endswith("ip"):
             port = d.int(47808, 47823, 'port')
-            q = d.pick(QUADS, 'quad')
+            q = d.pick(QUADS_T if quads == "T" else QUADS, 'quad')
             y = bytes(list(q) + R.port_octets(port))
         else:
             y = d.bytes(n, name='octets')
@@ -382,7 +409,7 @@ def roundtrip(d, kind, n):
         if kind.startswith("local"):
             a = LocalStation(y)
         else:
-            a = RemoteStation(d.pick(NETS, 'net'), y)
+            a = RemoteStation(draw_net(d, nets), y)
     text = str(a)
     d.note(text=text)
     try:
@@ -604,15 +631,17 @@ def concrete_pool():
     ]
 
 
-@meta(bounds="12 groups of concrete spellings (55 addresses) taken from the literals of the repository's tests and "
-             "their other spellings; the pair of positions is chosen by the engine, so every ordered pair is run",
+@meta(bounds="12 groups of concrete spellings (50 addresses) taken from the literals of the repository's tests and "
+             "their other spellings; the pair is chosen by the engine, so every ordered pair is run (quick: every pair "
+             "within a group, and every address against the first spelling of every other group)",
       outside="everything that is not one of these literals (the symbolic harness `equiv` covers the values)",
       stubs=STUBS[:1], assumes=ASSUMES[:1])
-def dict_slot(d, g):
+def dict_slot(d, gs, others):
     """equal addresses are one dictionary key, different addresses are different keys:
     the real hash() and a real dict, on concrete witnesses"""
     pool = concrete_pool()
-    flat = [(gi, a) for gi, grp in enumerate(pool) for a in grp]
+    g = d.pick(gs, 'group')
+    flat = [(gi, a) for gi, grp in enumerate(pool) for a in (grp if (others == "all" or gi == g) else grp[:1])]
     x = d.pick(pool[g], 'x')
     gy, y = d.pick(flat, 'y')
     table = {x: "x"}
@@ -650,15 +679,15 @@ def in_alphabet(c):
 
 
 @meta(bounds="23 notation shapes (digits / hex glyphs symbolic) with one junk character inserted in front, behind "
-             "or in the middle: (a) any printable ASCII character that occurs in no notation (symbolic, 62 "
+             "or in the middle: (a) any printable ASCII character that occurs in no notation (symbolic, 65 "
              "characters), (b) each of the characters : . / * x ' a A 0 X - (concrete) whenever the reference "
              "recogniser of the statement's notation list says the result is not a notation",
       outside="control characters (a trailing newline is accepted by the `$` of the regular expressions), "
               "non-ASCII, more than one junk character, arbitrary strings; '@' (route suffix)",
       stubs=STUBS[1:], assumes=ASSUMES[:1])
-def junk(d, t, mode):
-    tpl = TEMPLATES[t]
-    pos = d.pick([0, len(tpl), len(tpl) // 2], 'pos')
+def junk(d, ts, mode):
+    tpl = TEMPLATES[d.pick(ts, 'template')]
+    pos = d.pick(sorted({0, len(tpl), len(tpl) // 2}), 'pos')
     if mode == "outside":
         c = d.int(32, 126, 'junk')
         d.assume(not in_alphabet(c))
@@ -698,11 +727,131 @@ def junk(d, t, mode):
 
 
 # ---------------------------------------------------------------------------- instances
-ALL_SHAPES = [(a, b, c, e) for a in (1, 2, 3) for b in (1, 2, 3) for c in (1, 2, 3) for e in (1, 2, 3)]
-ALL_MASKS = list(range(33))
+ALL_SHAPES = [[a, b, c, e] for a in (1, 2, 3) for b in (1, 2, 3) for c in (1, 2, 3) for e in (1, 2, 3)]
+MIX_SHAPES = [[1, 1, 1, 1], [2, 2, 2, 2], [3, 3, 3, 3], [1, 2, 3, 1], [3, 2, 1, 3], [2, 3, 1, 2], [3, 1, 2, 3],
+              [1, 3, 3, 2], [2, 1, 2, 3]]
+ALL_MASKS = [None] + list(range(33))
+
+
+def _classes(pool):
+    out = {}
+    for idx, (_, cls, _) in enumerate(spellings(pool)):
+        out.setdefault(cls, []).append(idx)
+    return out
+
+
+def _equiv_instances(pool, n, ks, every_pair, budget, chunk=1):
+    """one obligation per first spelling i; j = the next spelling of the same class
+    (every_pair: every later one, and the first one for the last), k from ks"""
+    out = []
+    for cls, members in _classes(pool).items():
+        for pos, i in enumerate(members):
+            if len(members) == 1:
+                js = [i]
+            elif every_pair and pos + 1 < len(members):
+                js = members[pos + 1:]
+            else:
+                js = [members[(pos + 1) % len(members)]]
+            out.append(Inst(equiv, dict(pool=pool, n=n, i=i, js=js, ks=ks), budget=budget,
+                            label="%s%s,%s" % (pool, n if pool == "long" else "", spellings(pool)[i][0])))
+    return out
 
 
 def instances(tier):
     q = tier == "quick"
     out = []
+    B = 120 if q else 600
+
+    # 1. short text forms
+    out.append(Inst(parse_short, dict(group="station"), budget=B))
+    out.append(Inst(parse_short, dict(group="net:*"), budget=B))
+    for nn in (1, 2, 3, 4, 5, 6):
+        out.append(Inst(parse_short, dict(group="net%d:station" % nn), budget=B))
+
+    # 2. hex text forms
+    ns = (1, 2, 4, 7) if q else (1, 2, 3, 4, 5, 6, 7)
+    rn = (1, 7) if q else (1, 2, 3, 4, 5, 6, 7)
+    nds = (1, 5) if q else (1, 2, 3, 4, 5, 6)
+    out.append(Inst(parse_hex, dict(cases=[[f, n, 0] for f in ("0x", "X'") for n in ns]), budget=B, label="local"))
+    out.append(Inst(parse_hex, dict(cases=[["ether", 6, 0]]), budget=B, label="ether"))
+    for f in ("0x", "X'"):
+        for nd in nds:
+            out.append(Inst(parse_hex, dict(cases=[[f, n, nd] for n in rn]), budget=B, label="net%d:%s" % (nd, f)))
+
+    # 3. dotted IPv4: every mask length on the mixed digit-count shapes, every digit-count
+    #    shape on a few mask lengths; ports and networks on some shapes
+    if q:
+        for part in range(3):
+            out.append(Inst(parse_ip, dict(shape=[3, 3, 3, 3], masks=ALL_MASKS[part::3], pd=0, nd=0), budget=B,
+                            label="3333,masks%d" % part))
+        out.append(Inst(parse_ip, dict(shape=[1, 1, 1, 1], masks=[None, 0, 32], pd=0, nd=0), budget=B, label="1111"))
+        out.append(Inst(parse_ip, dict(shape=[2, 2, 2, 2], masks=[None, 9], pd=5, nd=5), budget=B, label="2222,port,net"))
+        out.append(Inst(parse_ip, dict(shape=[1, 2, 3, 1], masks=[None, 16], pd=5, nd=0), budget=B, label="1231,port"))
+        out.append(Inst(parse_ip, dict(shape=[3, 2, 1, 3], masks=[None, 25], pd=1, nd=1), budget=B, label="3213,port1,net1"))
+    else:
+        for sh in MIX_SHAPES:
+            for part in range(2):
+                out.append(Inst(parse_ip, dict(shape=sh, masks=ALL_MASKS[part::2], pd=0, nd=0), budget=B,
+                                label="%d%d%d%d,masks%d" % (tuple(sh) + (part,))))
+        for sh in ALL_SHAPES:
+            if sh not in MIX_SHAPES:
+                out.append(Inst(parse_ip, dict(shape=sh, masks=[None, 0, 19, 32], pd=0, nd=0), budget=B,
+                                label="%d%d%d%d" % tuple(sh)))
+        for pd in (1, 2, 3, 4, 5):
+            out.append(Inst(parse_ip, dict(shape=[3, 3, 3, 3], masks=[None, 0, 8, 31], pd=pd, nd=0), budget=B,
+                            label="3333,port%d" % pd))
+            out.append(Inst(parse_ip, dict(shape=[1, 2, 3, 1], masks=[None, 24], pd=pd, nd=6 - pd), budget=B,
+                            label="1231,port%d,net%d" % (pd, 6 - pd)))
+        for nd in (1, 2, 3, 4, 5, 6):
+            out.append(Inst(parse_ip, dict(shape=[2, 3, 1, 2], masks=[None, 13], pd=0, nd=nd), budget=B,
+                            label="2312,net%d" % nd))
+            out.append(Inst(parse_ip, dict(shape=[3, 3, 3, 3], masks=[None, 30], pd=5, nd=nd), budget=B,
+                            label="3333,port5,net%d" % nd))
+
+    # 4. non-text forms
+    out.append(Inst(ctor_numbers, dict(hi_v=1000 if q else 10 ** 6, hi_net=70000 if q else 10 ** 7), budget=B))
+    out.append(Inst(ctor_octets, dict(ns=[1, 2, 3, 4, 5, 6, 7], hi_net=70000 if q else 10 ** 7), budget=B))
+    out.append(Inst(ctor_tuple, dict(shapes=[None, [3, 1, 2, 3], [1, 1, 1, 1]] if q else [None] + MIX_SHAPES),
+                    budget=B))
+
+    # 5. print / parse
+    nets_q = [0, 9, 10, 65534]
+    out.append(Inst(roundtrip, dict(group="simple", nets=nets_q if q else NETS, quads="Q"), budget=B))
+    out.append(Inst(roundtrip, dict(group="local-ip", nets=[], quads="Q" if q else "T"), budget=B))
+    out.append(Inst(roundtrip, dict(group="remote-q" if q else "remote", nets=nets_q if q else NETS, quads="Q"),
+                    budget=B))
+    out.append(Inst(roundtrip, dict(group="remote-ip", nets=nets_q if q else NETS, quads="Q"), budget=B))
+    if not q:
+        for lo, hi in ((0, 300), (65300, 65534)):
+            out.append(Inst(roundtrip, dict(group="rbcast", nets=["range", lo, hi], quads="Q"), budget=B,
+                            label="rbcast,%d..%d" % (lo, hi)))
+            out.append(Inst(roundtrip, dict(group="remote-q", nets=["range", lo, hi], quads="Q"), budget=B,
+                            label="remote,%d..%d" % (lo, hi)))
+
+    # 6. equality / hash
+    if q:
+        out += _equiv_instances("short", 1, [0, 1, 6, 8, 9, 11, 13, 14, 15, 17], False, B)
+        out += _equiv_instances("long", 3, [0, 3, 5, 6], False, B)
+        out += _equiv_instances("ip", 6, [5], False, B)
+    else:
+        out += _equiv_instances("short", 1, list(range(19)), True, B)
+        for n in (2, 3, 5, 7):
+            out += _equiv_instances("long", n, list(range(8)), True, B)
+        out += _equiv_instances("ip", 6, [5, 10], True, B)
+
+    # 7. dictionary slot
+    if q:
+        out.append(Inst(dict_slot, dict(gs=list(range(12)), others="first"), budget=B))
+    else:
+        for part in range(4):
+            out.append(Inst(dict_slot, dict(gs=list(range(12))[part::4], others="all"), budget=B, label="part%d" % part))
+
+    # 8. refused shapes
+    T = list(range(len(TEMPLATES)))
+    for part in range(3 if q else 6):
+        out.append(Inst(junk, dict(ts=T[part::3 if q else 6], mode="outside"), budget=B, label="outside,part%d" % part))
+    inside = [1, 2, 4, 5, 6, 7, 14, 16] if q else T
+    parts = 4 if q else 12
+    for part in range(parts):
+        out.append(Inst(junk, dict(ts=inside[part::parts], mode="inside"), budget=B, label="inside,part%d" % part))
     return out
